@@ -1013,3 +1013,786 @@ def escapes(flow: Flow, site: ast.AST, _seen: set[int] | None = None) -> list[as
                     # read by a nested function (closure): conservatively an escape of the raw value
                     out.append(u)
         return out
+
+
+# ---------------------------------------------------------------------
+# constant propagation of concrete values through a small pure function (R15.7 / R15.8)
+
+
+class NotConcrete(Exception):
+    """the evaluation met something whose value is not determined by the given inputs and the source text."""
+
+    def __init__(self, why: str, node: ast.AST | None = None):
+        super().__init__(why)
+        self.why = why
+        self.node = node
+
+
+class ConcreteRaise(Exception):
+    """the evaluated code raises."""
+
+    def __init__(self, what: str, node: ast.AST | None = None):
+        super().__init__(what)
+        self.what = what
+        self.node = node
+
+
+class _Ret(Exception):
+    def __init__(self, value: t.Any):
+        self.value = value
+
+
+class _Brk(Exception):
+    pass
+
+
+class _Cont(Exception):
+    pass
+
+
+class CFn(t.NamedTuple):
+    """a function of the analysed package, as a value."""
+
+    node: t.Any
+    module: t.Any
+    closure: t.Any = None  # enclosing environment of a nested def / lambda
+
+
+class CExt(t.NamedTuple):
+    """something outside the package, by its dotted name (`re`, `re.sub`, `builtins.len`)."""
+
+    fq: str
+
+
+class Opaque:
+    """an input whose value the evaluation must not depend on; any operation on it ends the evaluation."""
+
+    def __init__(self, label: str):
+        self.label = label
+
+    def __repr__(self) -> str:
+        return f"<{self.label}>"
+
+
+# pure methods of immutable / freshly built values; they are *applied* to constants that come from the source text
+# and from the representative inputs - python's own str semantics are the trusted model here
+_PURE_METHODS: dict[type, set[str]] = {
+    str: {"endswith", "startswith", "rstrip", "lstrip", "strip", "removesuffix", "removeprefix", "rsplit", "split", "rpartition", "partition", "replace", "find", "rfind", "index", "rindex", "lower", "upper", "casefold", "isdigit", "isdecimal", "isnumeric", "isalpha", "isalnum", "isascii", "count", "join", "format", "title", "capitalize", "zfill", "splitlines", "encode", "translate", "center", "ljust", "rjust", "isspace", "islower", "isupper"},
+    bytes: {"decode", "endswith", "startswith", "rstrip", "lstrip", "strip", "removesuffix", "removeprefix", "rsplit", "split", "rpartition", "partition", "replace", "find", "rfind", "lower", "upper", "count", "join"},
+    dict: {"get", "keys", "values", "items", "copy"},
+    tuple: {"index", "count"},
+    list: {"index", "count", "copy"},
+    set: {"copy", "union", "intersection", "difference", "issubset", "issuperset", "isdisjoint"},
+    frozenset: {"copy", "union", "intersection", "difference", "issubset", "issuperset", "isdisjoint"},
+    int: {"bit_length"},
+}
+_MUTATORS: dict[type, set[str]] = {
+    list: {"append", "extend", "insert", "pop", "reverse", "sort", "clear", "remove"},
+    dict: {"update", "setdefault", "pop", "clear"},
+    set: {"add", "discard", "update", "remove", "clear"},
+}
+_PURE_BUILTINS = {"len", "str", "int", "bool", "tuple", "list", "dict", "set", "frozenset", "sorted", "reversed", "enumerate", "zip", "range", "min", "max", "any", "all", "isinstance", "repr", "ord", "chr", "abs", "sum", "map", "filter", "iter", "next", "bytes"}
+_PURE_EXT = {"re.sub", "re.fullmatch", "re.match", "re.search", "re.compile", "re.escape", "re.split", "re.findall", "operator.itemgetter", "typing.cast"}
+_TYPE_NAMES = {"builtins.str": str, "builtins.int": int, "builtins.bytes": bytes, "builtins.tuple": tuple, "builtins.list": list, "builtins.dict": dict, "builtins.bool": bool, "builtins.set": set, "builtins.frozenset": frozenset}
+
+
+class Concrete:
+    """evaluates a function of the package on concrete arguments by walking its syntax tree.
+
+    Only what is determined by the arguments and the source text is computed: constants, module-level constants,
+    displays, slicing, comparisons, boolean logic, f-strings, pure methods of str / bytes / dict / tuple / list / set
+    values, a few pure builtins and `re` functions, calls of other functions of the package (followed, bounded depth),
+    local containers mutated in place.  Anything else (attribute of an unknown object, an I/O call, an Opaque input)
+    raises NotConcrete: the caller reports an analysis error, never a verdict."""
+
+    def __init__(self, repo: Repo, max_steps: int = 20000, max_depth: int = 6):
+        self.repo = repo
+        self.steps = 0
+        self.max_steps = max_steps
+        self.max_depth = max_depth
+        self.depth = 0
+        self._modvals: dict[tuple[str, str], t.Any] = {}
+        self._busy: set[tuple[str, str]] = set()
+        self.calls: list[tuple[str, list, dict, ast.Call]] = []  # observed calls of `watch`ed external names
+        self.watch: dict[str, t.Callable[[list, dict], t.Any]] = {}
+
+    # -- entry --------------------------------------------------------------
+    def call(self, fn: CFn, args: list, kwargs: dict, node: ast.AST | None = None) -> t.Any:
+        if self.depth >= self.max_depth:
+            raise NotConcrete("call depth exceeded", node)
+        f = fn.node
+        env = self._bind(f, fn, args, kwargs, node)
+        self.depth += 1
+        try:
+            if isinstance(f, ast.Lambda):
+                return self.expr(f.body, env, fn.module)
+            try:
+                self.block(f.body, env, fn.module)
+            except _Ret as r:
+                return r.value
+            return None
+        finally:
+            self.depth -= 1
+
+    def _bind(self, f: t.Any, fn: CFn, args: list, kwargs: dict, node: ast.AST | None) -> dict:
+        a = f.args
+        env: dict[str, t.Any] = {"__closure__": fn.closure}
+        pos = [x.arg for x in a.posonlyargs + a.args]
+        defaults = dict(zip(pos[len(pos) - len(a.defaults) :], a.defaults))
+        kwdefaults = {x.arg: d for x, d in zip(a.kwonlyargs, a.kw_defaults) if d is not None}
+        rest = list(args)
+        for p in pos:
+            if rest:
+                env[p] = rest.pop(0)
+            elif p in kwargs:
+                env[p] = kwargs.pop(p)
+            elif p in defaults:
+                env[p] = self.expr(defaults[p], {"__closure__": fn.closure}, fn.module)
+            else:
+                raise NotConcrete(f"missing argument `{p}`", node)
+        if a.vararg is not None:
+            env[a.vararg.arg] = tuple(rest)
+        elif rest:
+            raise NotConcrete("too many positional arguments", node)
+        kw = dict(kwargs)
+        for x in a.kwonlyargs:
+            if x.arg in kw:
+                env[x.arg] = kw.pop(x.arg)
+            elif x.arg in kwdefaults:
+                env[x.arg] = self.expr(kwdefaults[x.arg], {"__closure__": fn.closure}, fn.module)
+            else:
+                raise NotConcrete(f"missing keyword argument `{x.arg}`", node)
+        for p in pos:
+            kw.pop(p, None)
+        if a.kwarg is not None:
+            env[a.kwarg.arg] = kw
+        elif kw:
+            raise NotConcrete(f"unexpected keyword argument(s) {sorted(kw)}", node)
+        return env
+
+    def tick(self, node: ast.AST | None) -> None:
+        self.steps += 1
+        if self.steps > self.max_steps:
+            raise NotConcrete("step budget exhausted", node)
+
+    # -- statements ---------------------------------------------------------
+    def block(self, body: list[ast.stmt], env: dict, m: t.Any) -> None:
+        for st in body:
+            self.stmt(st, env, m)
+
+    def stmt(self, st: ast.stmt, env: dict, m: t.Any) -> None:
+        self.tick(st)
+        if isinstance(st, ast.Expr):
+            if not isinstance(st.value, ast.Constant):
+                self.expr(st.value, env, m)
+        elif isinstance(st, ast.Assign):
+            v = self.expr(st.value, env, m)
+            for tg in st.targets:
+                self.assign(tg, v, env, m)
+        elif isinstance(st, ast.AnnAssign):
+            if st.value is not None:
+                self.assign(st.target, self.expr(st.value, env, m), env, m)
+        elif isinstance(st, ast.AugAssign):
+            cur = self.expr(_as_load(st.target), env, m)
+            self.assign(st.target, self.binop(st.op, cur, self.expr(st.value, env, m), st), env, m)
+        elif isinstance(st, ast.If):
+            self.block(st.body if self.truth(self.expr(st.test, env, m), st.test) else st.orelse, env, m)
+        elif isinstance(st, ast.Return):
+            raise _Ret(self.expr(st.value, env, m) if st.value is not None else None)
+        elif isinstance(st, ast.Raise):
+            raise ConcreteRaise(ast.unparse(st.exc)[:60] if st.exc is not None else "re-raise", st)
+        elif isinstance(st, ast.Pass):
+            pass
+        elif isinstance(st, (ast.FunctionDef, ast.AsyncFunctionDef)):
+            env[st.name] = CFn(st, m, env)
+        elif isinstance(st, (ast.Import, ast.ImportFrom)):
+            pass  # names are resolved through the module's import table
+        elif isinstance(st, ast.For):
+            broke = False
+            for item in self.iterate(self.expr(st.iter, env, m), st.iter):
+                self.assign(st.target, item, env, m)
+                try:
+                    self.block(st.body, env, m)
+                except _Brk:
+                    broke = True
+                    break
+                except _Cont:
+                    continue
+            if not broke:
+                self.block(st.orelse, env, m)
+        elif isinstance(st, ast.While):
+            broke = False
+            while self.truth(self.expr(st.test, env, m), st.test):
+                self.tick(st)
+                try:
+                    self.block(st.body, env, m)
+                except _Brk:
+                    broke = True
+                    break
+                except _Cont:
+                    continue
+            if not broke:
+                self.block(st.orelse, env, m)
+        elif isinstance(st, ast.Break):
+            raise _Brk()
+        elif isinstance(st, ast.Continue):
+            raise _Cont()
+        elif isinstance(st, ast.Assert):
+            if not self.truth(self.expr(st.test, env, m), st.test):
+                raise ConcreteRaise("AssertionError", st)
+        elif isinstance(st, ast.Try):
+            try:
+                self.block(st.body, env, m)
+            except ConcreteRaise as r:
+                raise NotConcrete(f"an exception ({r.what}) inside a try block is not followed", st)
+            self.block(st.orelse, env, m)
+            self.block(st.finalbody, env, m)
+        elif isinstance(st, ast.Match):
+            raise NotConcrete("match statement", st)
+        else:
+            raise NotConcrete(f"statement `{type(st).__name__}`", st)
+
+    def assign(self, tg: ast.AST, v: t.Any, env: dict, m: t.Any) -> None:
+        if isinstance(tg, ast.Name):
+            env[tg.id] = v
+        elif isinstance(tg, (ast.Tuple, ast.List)):
+            items = list(self.iterate(v, tg))
+            star = [i for i, e in enumerate(tg.elts) if isinstance(e, ast.Starred)]
+            if star:
+                i = star[0]
+                after = len(tg.elts) - i - 1
+                if len(items) < len(tg.elts) - 1:
+                    raise ConcreteRaise("ValueError (unpack)", tg)
+                parts = items[:i] + [items[i : len(items) - after]] + items[len(items) - after :]
+                for e, x in zip(tg.elts, parts):
+                    self.assign(e.value if isinstance(e, ast.Starred) else e, x, env, m)
+            else:
+                if len(items) != len(tg.elts):
+                    raise ConcreteRaise("ValueError (unpack)", tg)
+                for e, x in zip(tg.elts, items):
+                    self.assign(e, x, env, m)
+        elif isinstance(tg, ast.Subscript):
+            obj = self.expr(tg.value, env, m)
+            if not isinstance(obj, (list, dict)):
+                raise NotConcrete("item store into a non-local container", tg)
+            obj[self.index(tg.slice, env, m)] = v
+        else:
+            raise NotConcrete(f"assignment target `{ast.unparse(tg)[:40]}`", tg)
+
+    # -- expressions ----------------------------------------------------------
+    def truth(self, v: t.Any, node: ast.AST | None) -> bool:
+        if isinstance(v, Opaque):
+            raise NotConcrete(f"the decision depends on {v!r}", node)
+        if isinstance(v, (CFn, CExt)):
+            return True
+        return bool(v)
+
+    def iterate(self, v: t.Any, node: ast.AST | None) -> t.Iterable:
+        if isinstance(v, (str, bytes, tuple, list, dict, set, frozenset, range)):
+            return list(v)
+        if isinstance(v, (enumerate, zip, map, filter, reversed)) or type(v).__name__ in ("dict_keys", "dict_values", "dict_items", "list_iterator", "tuple_iterator", "generator", "str_ascii_iterator"):
+            return list(v)
+        raise NotConcrete(f"iteration over {type(v).__name__}", node)
+
+    def index(self, s: ast.AST, env: dict, m: t.Any) -> t.Any:
+        if isinstance(s, ast.Slice):
+            return slice(*(self.expr(x, env, m) if x is not None else None for x in (s.lower, s.upper, s.step)))
+        return self.expr(s, env, m)
+
+    def name(self, e: ast.Name, env: dict, m: t.Any) -> t.Any:
+        cur: dict | None = env
+        while cur is not None:
+            if e.id in cur:
+                return cur[e.id]
+            cur = cur.get("__closure__")
+        return self.module_value(m, e.id, e)
+
+    def module_value(self, m: t.Any, name: str, node: ast.AST | None) -> t.Any:
+        key = (m.name, name)
+        if key in self._modvals:
+            return self._modvals[key]
+        if name in m.functions:
+            v: t.Any = CFn(m.functions[name].node, m)
+        elif name in m.assigns:
+            vals = m.assigns[name]
+            if len(vals) != 1:
+                raise NotConcrete(f"module-level `{name}` is bound {len(vals)} times", node)
+            if key in self._busy:
+                raise NotConcrete(f"module-level `{name}` is defined through itself", node)
+            self._busy.add(key)
+            try:
+                v = self.expr(vals[0], {"__closure__": None}, m)
+            finally:
+                self._busy.discard(key)
+        elif name in m.classes:
+            v = CCls(m.classes[name].fq)
+        else:
+            fq = self.repo.resolve(m, name)
+            v = self.from_fq(fq, node)
+        self._modvals[key] = v
+        return v
+
+    def from_fq(self, fq: str | None, node: ast.AST | None) -> t.Any:
+        if fq is None:
+            raise NotConcrete("unresolved name", node)
+        if fq in ("builtins.True", "builtins.False", "builtins.None"):
+            return {"True": True, "False": False, "None": None}[fq.split(".")[1]]
+        fi = self.repo.try_func(fq) if fq.startswith("werkzeug.") else None
+        if fi is not None:
+            return CFn(fi.node, fi.module)
+        if fq.startswith("werkzeug.") and self.repo.try_cls(fq) is not None:
+            return CCls(fq)
+        if fq.startswith("werkzeug."):
+            mn, _, attr = fq.rpartition(".")
+            if mn in self.repo.modules and attr in self.repo.modules[mn].assigns:
+                return self.module_value(self.repo.modules[mn], attr, node)
+            if fq in self.repo.modules:
+                return CExt(fq)
+            raise NotConcrete(f"`{fq}` is not a function or constant of the package", node)
+        return CExt(fq)
+
+    def expr(self, e: ast.AST | None, env: dict, m: t.Any) -> t.Any:
+        self.tick(e)
+        if e is None:
+            return None
+        if isinstance(e, ast.Constant):
+            return e.value
+        if isinstance(e, ast.Name):
+            return self.name(e, env, m)
+        if isinstance(e, ast.JoinedStr):
+            out = []
+            for v in e.values:
+                if isinstance(v, ast.Constant):
+                    out.append(str(v.value))
+                    continue
+                x = self.plain(self.expr(v.value, env, m), v)  # type: ignore[attr-defined]
+                if v.conversion == 114:  # type: ignore[attr-defined]
+                    x = repr(x)
+                elif v.conversion == 115:  # type: ignore[attr-defined]
+                    x = str(x)
+                spec = self.expr(v.format_spec, env, m) if v.format_spec is not None else ""  # type: ignore[attr-defined]
+                out.append(format(x, spec))
+            return "".join(out)
+        if isinstance(e, ast.Tuple):
+            return tuple(self.elements(e.elts, env, m))
+        if isinstance(e, ast.List):
+            return list(self.elements(e.elts, env, m))
+        if isinstance(e, ast.Set):
+            return set(self.hashable(x, e) for x in self.elements(e.elts, env, m))
+        if isinstance(e, ast.Dict):
+            d: dict = {}
+            for k, v in zip(e.keys, e.values):
+                if k is None:
+                    sub = self.expr(v, env, m)
+                    if not isinstance(sub, dict):
+                        raise NotConcrete("`**` of a non-dict", e)
+                    d.update(sub)
+                else:
+                    d[self.hashable(self.expr(k, env, m), k)] = self.expr(v, env, m)
+            return d
+        if isinstance(e, ast.IfExp):
+            return self.expr(e.body if self.truth(self.expr(e.test, env, m), e.test) else e.orelse, env, m)
+        if isinstance(e, ast.BoolOp):
+            v = None
+            for x in e.values:
+                v = self.expr(x, env, m)
+                t_ = self.truth(v, x)
+                if (isinstance(e.op, ast.And) and not t_) or (isinstance(e.op, ast.Or) and t_):
+                    return v
+            return v
+        if isinstance(e, ast.UnaryOp):
+            v = self.plain(self.expr(e.operand, env, m), e)
+            if isinstance(e.op, ast.Not):
+                return not self.truth(v, e)
+            if isinstance(e.op, ast.USub) and isinstance(v, int):
+                return -v
+            if isinstance(e.op, ast.UAdd) and isinstance(v, int):
+                return +v
+            raise NotConcrete(f"`{ast.unparse(e)[:40]}`", e)
+        if isinstance(e, ast.BinOp):
+            return self.binop(e.op, self.expr(e.left, env, m), self.expr(e.right, env, m), e)
+        if isinstance(e, ast.Compare):
+            left = self.expr(e.left, env, m)
+            for op, r in zip(e.ops, e.comparators):
+                right = self.expr(r, env, m)
+                if not self.compare(op, left, right, e):
+                    return False
+                left = right
+            return True
+        if isinstance(e, ast.Subscript):
+            v = self.plain(self.expr(e.value, env, m), e)
+            i = self.index(e.slice, env, m)
+            if not isinstance(v, (str, bytes, tuple, list, dict, range)):
+                raise NotConcrete(f"subscript of {type(v).__name__}", e)
+            try:
+                return v[i]
+            except (IndexError, KeyError, TypeError) as x:
+                raise ConcreteRaise(type(x).__name__, e)
+        if isinstance(e, ast.NamedExpr):
+            v = self.expr(e.value, env, m)
+            env[e.target.id] = v
+            return v
+        if isinstance(e, ast.Lambda):
+            return CFn(e, m, env)
+        if isinstance(e, (ast.ListComp, ast.SetComp, ast.GeneratorExp, ast.DictComp)):
+            return self.comp(e, env, m)
+        if isinstance(e, ast.Attribute):
+            d = dotted(e)
+            head = d.split(".")[0] if d else None
+            if d is not None and head is not None and not self._bound(head, env):
+                base = self.module_value(m, head, e) if (head in m.assigns or head in m.functions) else None
+                if base is None:
+                    return self.from_fq(self.repo.resolve(m, d), e)
+            v = self.expr(e.value, env, m)
+            if isinstance(v, CExt):
+                return self.from_fq(f"{v.fq}.{e.attr}", e)
+            if isinstance(v, CObj):
+                return self.getattr_obj(v, e.attr, e)
+            return _Bound(self.plain(v, e), e.attr)
+        if isinstance(e, ast.Call):
+            return self.call_expr(e, env, m)
+        if isinstance(e, ast.Starred):
+            raise NotConcrete("starred expression", e)
+        raise NotConcrete(f"expression `{type(e).__name__}`", e)
+
+    @staticmethod
+    def _bound(name: str, env: dict) -> bool:
+        cur: dict | None = env
+        while cur is not None:
+            if name in cur:
+                return True
+            cur = cur.get("__closure__")
+        return False
+
+    def plain(self, v: t.Any, node: ast.AST | None) -> t.Any:
+        if isinstance(v, Opaque):
+            raise NotConcrete(f"the value depends on {v!r}", node)
+        return v
+
+    def hashable(self, v: t.Any, node: ast.AST | None) -> t.Any:
+        v = self.plain(v, node)
+        try:
+            hash(v)
+        except TypeError:
+            raise NotConcrete("unhashable element", node)
+        return v
+
+    def elements(self, elts: list, env: dict, m: t.Any) -> list:
+        out: list = []
+        for x in elts:
+            if isinstance(x, ast.Starred):
+                out += list(self.iterate(self.expr(x.value, env, m), x))
+            else:
+                out.append(self.expr(x, env, m))
+        return out
+
+    def comp(self, e: t.Any, env: dict, m: t.Any) -> t.Any:
+        out: list = []
+        scope = {"__closure__": env}
+
+        def rec(i: int) -> None:
+            if i == len(e.generators):
+                if isinstance(e, ast.DictComp):
+                    out.append((self.hashable(self.expr(e.key, scope, m), e), self.expr(e.value, scope, m)))
+                else:
+                    out.append(self.expr(e.elt, scope, m))
+                return
+            g = e.generators[i]
+            for item in self.iterate(self.expr(g.iter, scope, m), g.iter):
+                self.assign(g.target, item, scope, m)
+                if all(self.truth(self.expr(c, scope, m), c) for c in g.ifs):
+                    rec(i + 1)
+
+        rec(0)
+        if isinstance(e, ast.SetComp):
+            return set(self.hashable(x, e) for x in out)
+        if isinstance(e, ast.DictComp):
+            return dict(out)
+        return out  # a generator is consumed by whoever receives it: a list behaves the same for pure consumers
+
+    def binop(self, op: ast.operator, a: t.Any, b: t.Any, node: ast.AST) -> t.Any:
+        a, b = self.plain(a, node), self.plain(b, node)
+        ok = (str, bytes, int, tuple, list)
+        if not isinstance(a, ok + (set, frozenset, dict)) or not isinstance(b, ok + (set, frozenset, dict)):
+            raise NotConcrete(f"operator on {type(a).__name__} / {type(b).__name__}", node)
+        try:
+            if isinstance(op, ast.Add):
+                return a + b
+            if isinstance(op, ast.Sub):
+                return a - b
+            if isinstance(op, ast.Mult):
+                return a * b
+            if isinstance(op, ast.Mod):
+                return a % b
+            if isinstance(op, ast.FloorDiv):
+                return a // b
+            if isinstance(op, ast.BitOr):
+                return a | b
+            if isinstance(op, ast.BitAnd):
+                return a & b
+        except (TypeError, ValueError, ZeroDivisionError) as x:
+            raise ConcreteRaise(type(x).__name__, node)
+        raise NotConcrete(f"operator `{type(op).__name__}`", node)
+
+    def compare(self, op: ast.cmpop, a: t.Any, b: t.Any, node: ast.AST) -> bool:
+        if isinstance(op, (ast.Is, ast.IsNot)):
+            if isinstance(a, Opaque) or isinstance(b, Opaque):
+                other = b if isinstance(a, Opaque) else a
+                if other is None:
+                    return isinstance(op, ast.IsNot)  # an Opaque input stands for some object, not for None
+                raise NotConcrete("identity test on an undetermined value", node)
+            same = a is b or (a is None and b is None) or (isinstance(a, bool) and isinstance(b, bool) and a == b)
+            return same if isinstance(op, ast.Is) else not same
+        a, b = self.plain(a, node), self.plain(b, node)
+        try:
+            if isinstance(op, ast.Eq):
+                return a == b
+            if isinstance(op, ast.NotEq):
+                return a != b
+            if isinstance(op, ast.In):
+                return a in b
+            if isinstance(op, ast.NotIn):
+                return a not in b
+            if isinstance(op, ast.Lt):
+                return a < b
+            if isinstance(op, ast.LtE):
+                return a <= b
+            if isinstance(op, ast.Gt):
+                return a > b
+            if isinstance(op, ast.GtE):
+                return a >= b
+        except TypeError:
+            raise ConcreteRaise("TypeError", node)
+        raise NotConcrete("comparison", node)
+
+    # -- calls ------------------------------------------------------------------
+    def arguments(self, c: ast.Call, env: dict, m: t.Any) -> tuple[list, dict]:
+        args = self.elements(c.args, env, m)
+        kw: dict = {}
+        for k in c.keywords:
+            v = self.expr(k.value, env, m)
+            if k.arg is None:
+                if not isinstance(v, dict):
+                    raise NotConcrete("`**` of a non-dict", c)
+                kw.update(v)
+            else:
+                kw[k.arg] = v
+        return args, kw
+
+    def call_expr(self, c: ast.Call, env: dict, m: t.Any) -> t.Any:
+        f = self.expr(c.func, env, m)
+        args, kw = self.arguments(c, env, m)
+        return self.apply(f, args, kw, c)
+
+    def apply(self, f: t.Any, args: list, kw: dict, c: ast.AST) -> t.Any:
+        if isinstance(f, CFn):
+            return self.call(f, args, kw, c)
+        if isinstance(f, _Partial):
+            return self.apply(f.fn, list(f.args) + args, {**f.kw, **kw}, c)
+        if isinstance(f, CExt):
+            if f.fq in self.watch:
+                self.calls.append((f.fq, args, kw, c))  # type: ignore[arg-type]
+                return self.watch[f.fq](args, kw)
+            if f.fq == "functools.partial" and args:
+                return _Partial(args[0], tuple(args[1:]), dict(kw))
+            mod, _, nm = f.fq.rpartition(".")
+            if mod == "builtins" and nm in _PURE_BUILTINS:
+                return self.builtin(nm, args, kw, c)
+            if f.fq in _PURE_EXT:
+                return self.external(f.fq, args, kw, c)
+            raise NotConcrete(f"call of `{f.fq}`", c)
+        if isinstance(f, _Bound):
+            return self.method(f.obj, f.attr, args, kw, c)
+        if isinstance(f, _Getter):
+            return f(args)
+        if isinstance(f, CStub):
+            return CMade(f.label, tuple(args), tuple(sorted(kw.items())))
+        if isinstance(f, CCls):
+            return CMade(f.fq, tuple(args), tuple(sorted(kw.items())))
+        if isinstance(f, _Method):
+            return self.call(f.fn, [f.obj] + args, kw, c)
+        raise NotConcrete(f"call of a {type(f).__name__} value", c)
+
+    def getattr_obj(self, o: "CObj", attr: str, node: ast.AST) -> t.Any:
+        """attribute of a modelled instance: a given attribute value, or a method / property of its class."""
+        if attr in o.attrs:
+            return o.attrs[attr]
+        ci = self.repo.try_cls(o.cls) if o.cls else None
+        owner, fi = self.repo.lookup(ci, attr) if ci is not None else (None, None)
+        if isinstance(fi, ast.AST) and owner is not None and hasattr(owner, "module"):
+            return self.expr(fi, {"__closure__": None}, owner.module)  # a class attribute
+        if isinstance(fi, FuncInfo):
+            decs = [d.rsplit(".", 1)[-1] for d in fi.decorators]
+            fn = CFn(fi.node, fi.module)
+            if "property" in decs or "cached_property" in decs:
+                return self.call(fn, [o], {}, node)
+            if "staticmethod" in decs:
+                return fn
+            return _Method(fn, o)
+        raise NotConcrete(f"attribute `{attr}` of the modelled {o.cls or 'object'} is not given", node)
+
+    def method(self, obj: t.Any, attr: str, args: list, kw: dict, c: ast.AST) -> t.Any:
+        for a in list(args) + list(kw.values()):
+            self.plain(a, c)
+        if isinstance(obj, _Rx):
+            return self.external(f"re.{attr}", [obj, *args], kw, c)
+        if isinstance(obj, _M):
+            if attr in ("group", "groups", "start", "end", "span", "groupdict"):
+                return getattr(obj.m, attr)(*args, **kw)
+            raise NotConcrete(f"match.{attr}", c)
+        tp = type(obj)
+        if attr in _PURE_METHODS.get(tp, ()) or attr in _MUTATORS.get(tp, ()):
+            if tp is str and attr == "join":
+                args = [[self.plain(x, c) for x in self.iterate(args[0], c)]] if args else args
+            if tp is str and attr == "translate":
+                raise NotConcrete("str.translate", c)
+            try:
+                return getattr(obj, attr)(*args, **kw)
+            except (TypeError, ValueError, IndexError, KeyError, LookupError, UnicodeError) as x:
+                raise ConcreteRaise(type(x).__name__, c)
+        raise NotConcrete(f"method `{attr}` of a {tp.__name__}", c)
+
+    def builtin(self, nm: str, args: list, kw: dict, c: ast.AST) -> t.Any:
+        import builtins
+
+        if nm == "isinstance":
+            if len(args) != 2:
+                raise NotConcrete("isinstance arity", c)
+            tps = args[1] if isinstance(args[1], tuple) else (args[1],)
+            py = []
+            for x in tps:
+                if isinstance(x, CExt) and x.fq in _TYPE_NAMES:
+                    py.append(_TYPE_NAMES[x.fq])
+                else:
+                    raise NotConcrete("isinstance against a class that is not a builtin value type", c)
+            return isinstance(self.plain(args[0], c), tuple(py))
+        if nm in ("map", "filter"):
+            fn, *seqs = args
+            lists = [list(self.iterate(s, c)) for s in seqs]
+            if nm == "map":
+                return [self.apply(fn, list(xs), {}, c) for xs in zip(*lists)]
+            return [x for x in lists[0] if (self.truth(self.apply(fn, [x], {}, c), c) if fn is not None else self.truth(x, c))]
+        if nm in ("sorted", "min", "max") and "key" in kw:
+            key = kw.pop("key")
+            kw["key"] = lambda x: self.apply(key, [x], {}, c)
+        if nm in ("any", "all", "sum", "sorted", "min", "max", "tuple", "list", "set", "frozenset", "enumerate", "zip", "reversed", "iter", "dict") and args:
+            args = [list(self.iterate(a, c)) if not isinstance(a, (int, dict)) and not (nm in ("min", "max") and len(args) > 1) else a for a in args]
+        if nm == "next":
+            it = args[0]
+            if isinstance(it, list):  # a comprehension evaluated eagerly
+                if it:
+                    return it[0]
+                if len(args) > 1:
+                    return args[1]
+                raise ConcreteRaise("StopIteration", c)
+        for a in list(args) + list(kw.values()):
+            if isinstance(a, (CFn, CExt, _Bound)):
+                raise NotConcrete(f"{nm}() of a function value", c)
+            self.plain(a, c)
+        try:
+            return getattr(builtins, nm)(*args, **kw)
+        except (TypeError, ValueError, IndexError, KeyError, StopIteration, UnicodeError) as x:
+            raise ConcreteRaise(type(x).__name__, c)
+
+    def external(self, fq: str, args: list, kw: dict, c: ast.AST) -> t.Any:
+        import re
+
+        for a in list(args) + list(kw.values()):
+            self.plain(a, c)
+        if fq == "typing.cast" and len(args) == 2:
+            return args[1]
+        if fq == "operator.itemgetter" and len(args) == 1:
+            return _Getter(args[0])
+        flags = kw.pop("flags", 0)
+        if isinstance(flags, CExt):
+            raise NotConcrete("regex flags", c)
+        if args and isinstance(args[0], _Rx):
+            flags = flags | args[0].flags
+            args = [args[0].pattern, *args[1:]]
+        if not args or not isinstance(args[0], (str, bytes)):
+            raise NotConcrete(f"`{fq}` without a constant pattern", c)
+        try:
+            if fq == "re.compile":
+                re.compile(args[0], flags if not args[1:] else args[1])
+                return _Rx(args[0], flags if not args[1:] else args[1])
+            if fq == "re.escape":
+                return re.escape(args[0])
+            if fq == "re.sub":
+                if not isinstance(args[1], (str, bytes)):
+                    raise NotConcrete("re.sub with a callable replacement", c)
+                return re.sub(args[0], args[1], args[2], *args[3:], flags=flags, **kw)
+            if fq in ("re.split", "re.findall"):
+                return getattr(re, fq[3:])(*args, flags=flags, **kw)
+            mt = getattr(re, fq[3:])(*args, flags=flags, **kw)
+            return _M(mt) if mt is not None else None
+        except (re.error, TypeError, IndexError) as x:
+            raise ConcreteRaise(type(x).__name__, c)
+
+
+class _Bound(t.NamedTuple):
+    obj: t.Any
+    attr: str
+
+
+class _Method(t.NamedTuple):
+    fn: CFn
+    obj: t.Any
+
+
+class CObj:
+    """a modelled instance: the attributes that are given, methods / properties looked up in the package class."""
+
+    def __init__(self, cls: str | None, attrs: dict[str, t.Any]):
+        self.cls = cls
+        self.attrs = attrs
+
+
+class CCls(t.NamedTuple):
+    """a class of the package as a value; calling it gives a CMade record of the arguments."""
+
+    fq: str
+
+
+class CStub(t.NamedTuple):
+    """a callable whose call is only recorded (CMade)."""
+
+    label: str
+
+
+class CMade(t.NamedTuple):
+    label: str
+    args: tuple
+    kw: tuple
+
+
+class _Partial(t.NamedTuple):
+    fn: t.Any
+    args: tuple
+    kw: dict
+
+
+class _Rx(t.NamedTuple):
+    pattern: t.Any
+    flags: int
+
+
+class _M:
+    def __init__(self, m: t.Any):
+        self.m = m
+
+
+class _Getter:
+    def __init__(self, i: t.Any):
+        self.i = i
+
+    def __call__(self, args: list) -> t.Any:
+        return args[0][self.i]
+
+
+def _as_load(tg: ast.AST) -> ast.AST:
+    import copy
+
+    n = copy.copy(tg)
+    if hasattr(n, "ctx"):
+        n.ctx = ast.Load()  # type: ignore[attr-defined]
+    return n
